@@ -41,14 +41,15 @@ logging.getLogger("gemseo").setLevel(logging.CRITICAL)
 PROPERTY = "C15"
 LEVEL = "exploration"
 RULE = (
-    "history oracle: Hypothesis draws a list of 1-30 operations over two slots, each holding a JSONGrammar, a "
+    "history oracle: Hypothesis draws a list of 1-34 operations (optional defining prefix of 2-4 + body of 1-30) over two slots, each holding a JSONGrammar, a "
     "SimpleGrammar and (half of the cases) a PydanticGrammar plus one Python model per grammar: update_from_names/"
     "types/data (merge on/off), update(other slot, excluded names, merge), update_from_schema/update_from_file, "
     "restrict_to, rename_element, del, add_namespace, clear, copy into the other slot, pickle round trip, "
     "required_names add/discard/remove/clear, defaults set/del/update/assign, construction from a pydantic model "
     "with optional fields, invalid variants of these (unknown names, merge on a simple grammar, already namespaced "
     "name) and the queries keys/len/in, names_without_namespace, schema, to_json, repr, getitem, to_simple_grammar, "
-    "validate. Validation data are built from the model (every element gets a value of an accepted class: float/int/"
+    "validate; a quarter of the edits are 'probed': valid data are validated right before and right after the edit. "
+    "Validation data are built from the model (every element gets a value of an accepted class: float/int/"
     "empty/2-d/complex arrays, lists, str, int, bool, float, integral float, None, nested dict, complex; optional "
     "elements may be omitted) and then mutated 0-2 times (drop a name, other value class, unknown name); the data of "
     "the previous validate of the slot are validated again. files oracle: each of the shipped *.json grammars x data "
@@ -328,13 +329,18 @@ def _name_idx():
 
 
 _small = st.integers(0, 7)
-_merge = st.integers(0, 4).map(lambda v: v == 0)
-_bad = st.integers(0, 11).map(lambda v: v == 0)
-_slot = st.integers(0, 3).map(lambda v: 0 if v < 3 else 1)
+_merge = st.integers(0, 5).map(lambda v: v == 3)  # False is the simplest value
+_bad = st.integers(0, 11).map(lambda v: v == 7)
+_slot = st.integers(0, 2).map(lambda v: 0 if v < 2 else 1)
 
 
 def _op(name, **fields):
     return st.fixed_dictionaries({"op": st.just(name), "slot": _slot, **fields})
+
+
+def _edit(name, **fields):
+    """An edit; with probe=True valid data are validated right before and right after it."""
+    return _op(name, probe=st.integers(0, 3).map(lambda v: v == 2), **fields)
 
 
 def _mutations():
@@ -351,31 +357,32 @@ def op_groups():
     dflt = st.integers(0, len(DEFAULT_CLASSES) - 1)
     excl = st.lists(st.integers(0, len(BASE_NAMES)), max_size=2)
     define = st.one_of(
-        _op("names", names=names, merge=_merge), _op("names", names=names, merge=_merge), _op("names", names=names, merge=_merge),
-        _op("types", items=typed, merge=_merge), _op("types", items=typed, merge=_merge), _op("types", items=typed, merge=_merge),
-        _op("data", items=valued, merge=_merge), _op("data", items=valued, merge=_merge),
-        _op("schema", props=props, merge=_merge, via_file=st.booleans()), _op("schema", props=props, merge=_merge, via_file=st.booleans()),
-        _op("from_model", fields=fields),
+        _edit("names", names=names, merge=_merge), _edit("names", names=names, merge=_merge), _edit("names", names=names, merge=_merge),
+        _edit("types", items=typed, merge=_merge), _edit("types", items=typed, merge=_merge), _edit("types", items=typed, merge=_merge),
+        _edit("data", items=valued, merge=_merge), _edit("data", items=valued, merge=_merge),
+        _edit("schema", props=props, merge=_merge, via_file=st.booleans()), _edit("schema", props=props, merge=_merge, via_file=st.booleans()),
+        _edit("from_model", fields=fields), _edit("from_model", fields=fields),
     )
     structural = st.one_of(
-        _op("update", excluded=excl, merge=_merge), _op("update", excluded=excl, merge=_merge), _op("update", excluded=excl, merge=_merge),
-        _op("restrict", keep=st.integers(0, 31), bad=_bad),
-        _op("rename", el=_small, new=st.integers(0, len(BASE_NAMES) - 1), bad=_bad), _op("rename", el=_small, new=st.integers(0, len(BASE_NAMES) - 1), bad=_bad),
-        _op("delete", el=_small, bad=_bad), _op("delete", el=_small, bad=_bad),
-        _op("namespace", el=_small, ns=st.integers(0, len(NAMESPACES) - 1), bad=_bad), _op("namespace", el=_small, ns=st.integers(0, len(NAMESPACES) - 1), bad=_bad),
-        _op("clear"),
-        _op("copy"), _op("copy"),
-        _op("pickle"), _op("pickle"), _op("pickle"),
+        _edit("update", excluded=excl, merge=_merge, common=st.just(False)), _edit("update", excluded=excl, merge=_merge, common=st.just(False)),
+        _edit("update", excluded=excl, merge=_merge, common=st.just(True)),
+        _edit("restrict", keep=st.integers(0, 31), bad=_bad), _edit("restrict", keep=st.integers(0, 31), bad=_bad),
+        _edit("rename", el=_small, new=st.integers(0, len(BASE_NAMES) - 1), bad=_bad), _edit("rename", el=_small, new=st.integers(0, len(BASE_NAMES) - 1), bad=_bad),
+        _edit("delete", el=_small, bad=_bad), _edit("delete", el=_small, bad=_bad),
+        _edit("namespace", el=_small, ns=st.integers(0, len(NAMESPACES) - 1), bad=_bad), _edit("namespace", el=_small, ns=st.integers(0, len(NAMESPACES) - 1), bad=_bad),
+        _edit("clear"),
+        _edit("copy"), _edit("copy"),
+        _edit("pickle"), _edit("pickle"), _edit("pickle"),
     )
     reqdef = st.one_of(
-        _op("req_add", el=_small, bad=_bad), _op("req_add", el=_small, bad=_bad),
-        _op("req_discard", el=_small, bad=_bad), _op("req_discard", el=_small, bad=_bad), _op("req_discard", el=_small, bad=_bad),
-        _op("req_remove", el=_small),
-        _op("req_clear"),
-        _op("def_set", el=_small, cls=dflt, bad=_bad), _op("def_set", el=_small, cls=dflt, bad=_bad), _op("def_set", el=_small, cls=dflt, bad=_bad),
-        _op("def_del", el=_small),
-        _op("def_update", els=st.lists(_small, min_size=1, max_size=2), cls=dflt),
-        _op("def_assign", els=st.lists(_small, max_size=2), cls=dflt),
+        _edit("req_add", el=_small, bad=_bad), _edit("req_add", el=_small, bad=_bad),
+        _edit("req_discard", el=_small, bad=_bad), _edit("req_discard", el=_small, bad=_bad), _edit("req_discard", el=_small, bad=_bad),
+        _edit("req_remove", el=_small),
+        _edit("req_clear"),
+        _edit("def_set", el=_small, cls=dflt, bad=_bad), _edit("def_set", el=_small, cls=dflt, bad=_bad), _edit("def_set", el=_small, cls=dflt, bad=_bad),
+        _edit("def_del", el=_small),
+        _edit("def_update", els=st.lists(_small, min_size=1, max_size=2), cls=dflt),
+        _edit("def_assign", els=st.lists(_small, max_size=2), cls=dflt),
     )
     query = st.one_of(
         _op("q_keys"), _op("q_nons"), _op("q_schema"), _op("q_schema"), _op("q_schema"), _op("q_to_json"), _op("q_to_json"), _op("q_repr"),
@@ -396,7 +403,8 @@ def histories():
     define = op_groups()[0]
     op = op_strategy()
     # a defining prefix (optional, so that failures shrink to nothing) and a body that is long half of the time
-    prefix = st.one_of(st.just([]), st.lists(define, min_size=2, max_size=4))
+    # (the first two defining operations go to slot 0 and slot 1 so that update() has a non-empty source)
+    prefix = st.one_of(st.just([]), st.lists(define, min_size=2, max_size=4).map(lambda ops: [{**o, "slot": i if i < 2 else o["slot"]} for i, o in enumerate(ops)]))
     body = st.one_of(st.lists(op, min_size=1, max_size=30), st.lists(op, min_size=10, max_size=30))
     return st.fixed_dictionaries({"pyd": st.booleans(), "prefix": prefix, "body": body}).map(
         lambda d: {"pyd": d["pyd"], "ops": d["prefix"] + d["body"]})
@@ -469,10 +477,6 @@ def snapshot(fam: Family, with_schema: bool):
 def expected_property(spec):
     """Expected to_json() description of a non-merged JSON element."""
     return ATOM_SCHEMA[spec[0]] if len(spec) == 1 else None
-
-
-def strip_annotations(prop):
-    return prop
 
 
 def required_dropped(ctx, fam: Family, doc: dict) -> bool:
@@ -670,7 +674,13 @@ def apply_edit(op, fams, ctx, scratch) -> bool:
 
     elif kind_op == "update":
         merge = op["merge"]
-        excluded = [UNKNOWN if i == len(BASE_NAMES) else name_of(i) for i in op["excluded"]]
+        src_names = list(other.m["json"].types)
+        # exclusions address the elements of the source (index-modulo); the last index is an unknown name
+        excluded = [UNKNOWN if i == len(BASE_NAMES) else (src_names[i % len(src_names)] if src_names else name_of(i)) for i in op["excluded"]]
+        if op.get("common"):
+            # exclude (also) the names the two grammars share
+            excluded += [n for n in src_names if n in fam.m["json"].types]
+        excluded = list(dict.fromkeys(excluded))
         incoming = {n: spec for n, spec in other.m["json"].types.items() if n not in excluded}
         if nested_object_resets_update(ctx, fam.m["json"], incoming, merge):
             ctx.cls("known:nested_object_update_skipped")
@@ -701,6 +711,11 @@ def apply_edit(op, fams, ctx, scratch) -> bool:
             fam.sync_js = False
         if excluded:
             ctx.cls("update_with_exclusions")
+            src_m, dst_m = other.m["json"], fam.m["json"]
+            if any(n in src_m.required and n in dst_m.types and n not in dst_m.required for n in excluded):
+                ctx.cls("update_excluding_a_source_required_target_optional_name")
+            if any(n in src_m.defaults and n in dst_m.types for n in excluded):
+                ctx.cls("update_excluding_a_name_with_source_default")
 
     elif kind_op == "schema":
         g, m = fam.g["json"], fam.m["json"]
@@ -1122,19 +1137,22 @@ def case_history(p, ctx):
     scratch = tempfile.mkdtemp(dir=os.environ.get("VERIF_SCRATCH"))
     try:
         fams = [Family(p["pyd"]) for _ in range(N_SLOTS)]
-        n_edits = n_queries = 0
+        probe_op = {"op": "validate", "vsel": 0, "omit": 0, "muts": [], "snap_schema": False}
         for step, op in enumerate(p["ops"]):
             name = op["op"]
             ctx.cls("op:" + name)
+            probing = bool(op.get("probe")) and name != "copy"
+            if probing:
+                ctx.cls("edit_between_two_validations")
+                run_query({**probe_op, "slot": op["slot"]}, fams[op["slot"]], ctx, p["ops"][:step])
             if name == "copy":
                 apply_copy(op, fams, ctx)
-                n_edits += 1
             elif name.startswith("q_") or name == "validate":
                 run_query(op, fams[op["slot"]], ctx, p["ops"][: step + 1])
-                n_queries += 1
             else:
                 apply_edit(op, fams, ctx, scratch)
-                n_edits += 1
+            if probing:
+                run_query({**probe_op, "slot": op["slot"]}, fams[op["slot"]], ctx, p["ops"][: step + 1])
             check_cross(ctx, fams, step)
         if p["pyd"]:
             ctx.cls("history_with_pydantic")
@@ -1362,5 +1380,5 @@ ORACLES = {"history": case_history, "files": case_files}
 
 
 def run(ctx):
-    ctx.drive("history", histories(), case_history, quick=450, thorough=6000)
-    ctx.drive("files", files_strategy(), case_files, quick=400, thorough=4000)
+    ctx.drive("history", histories(), case_history, quick=900, thorough=6000)
+    ctx.drive("files", files_strategy(), case_files, quick=500, thorough=3000)
